@@ -28,10 +28,20 @@ RECURSIVE NoSelfNesting(_, _)
 NoSelfNesting(t, above) == IF "ref" \in DOMAIN t THEN t.ref \in above
                            ELSE t.node \notin above /\ \A i \in 1..Len(t.kids) : NoSelfNesting(t.kids[i], above \cup {t.node})
 
+\* how often a container is written out in full: the property text reads "shared and cyclic references rendered as references" - a walk that
+\* keeps only the CURRENT PATH writes a container that is shared by two siblings (no cycle) out twice.  SharedAsRefs is REFUTED for this walk
+\* (cfg AsJsonShared): known finding KF-C14-9; the graphs concerned are marked in the RES lines (dup) and counted by the driver.
+RECURSIVE Expansions(_, _)
+RECURSIVE SumExp(_, _, _)
+Expansions(t, n) == IF "ref" \in DOMAIN t THEN 0 ELSE (IF t.node = n THEN 1 ELSE 0) + SumExp(t.kids, 1, n)
+SumExp(ks, i, n) == IF i > Len(ks) THEN 0 ELSE Expansions(ks[i], n) + SumExp(ks, i + 1, n)
+Dup == {n \in Nodes : Expansions(Out(1, {}), n) > 1}
+SharedAsRefs == Dup = {}
+
 Init == kind \in [Nodes -> Kinds] /\ kids \in [Nodes -> KidSeqs] /\ done = FALSE
 Next == /\ ~done /\ done' = TRUE /\ UNCHANGED <<kind, kids>>
         /\ PrintT("RES " \o ToString(TLCGet("level")) \o "_" \o ToString(RandomElement(1..2000000000)) \o ToString(RandomElement(1..2000000000)) \o " " \o
-                  ToJson([kind |-> kind, kids |-> kids, out |-> Out(1, {})]))
+                  ToJson([kind |-> kind, kids |-> kids, out |-> Out(1, {}), dup |-> Cardinality(Dup)]))
 Terminates == Depth(Out(1, {})) <= N + 1                  \* the walk is bounded by the number of containers
 CyclesCut == NoSelfNesting(Out(1, {}), {})
 =============================================================================
